@@ -84,3 +84,6 @@ func VerifResetReplay(sta *State) {
 	sta.UsedRandom = map[[32]byte]int64{}
 	sta.usedRandomM.Unlock()
 }
+
+// VerifCleanerPeriod is the period of UsedRandomCleaner (replayCacheAgeLimit).
+func VerifCleanerPeriod() time.Duration { return replayCacheAgeLimit }
